@@ -24,6 +24,13 @@ pub const PATTERNS: &[&str] = &[
     /* 7 */ r"é+",
     /* 8 */ r"a|ab",
     /* 9 */ r"\w+",
+    // look-behind assertions: what they see depends on the text before the position the parser is at
+    /* 10 */ r"\b[a-z]+",
+    /* 11 */ r"\B[a-z]+",
+    /* 12 */ r"^[a-z]",
+    /* 13 */ r"(?m)^[a-z0-9]+",
+    /* 14 */ r"\b",
+    /* 15 */ r"(?m)$\s?",
 ];
 
 // ---------------------------------------------------------------------------------------------
@@ -130,6 +137,9 @@ enum Spec {
     PaddedInt(u32),
     PaddedIdent,
     Regex(usize),
+    /// `(regexat N K)`: `any().repeated().exactly(K).ignore_then(regex(PATTERNS[N]))`; the reference is an anchored
+    /// search in the whole input starting at the offset of token K
+    RegexAt(usize, usize),
 }
 
 fn radix(sx: &Sx) -> Option<u32> {
@@ -171,6 +181,11 @@ fn parse_spec(sx: &Sx) -> Option<Spec> {
                     }
                     let n = a.parse::<usize>().ok()?;
                     (n < PATTERNS.len()).then_some(Spec::Regex(n))
+                }
+                ("regexat", 3) => {
+                    let n = atom(&items[1])?.parse::<usize>().ok()?;
+                    let k = atom(&items[2])?.parse::<usize>().ok()?;
+                    (n < PATTERNS.len()).then_some(Spec::RegexAt(n, k))
                 }
                 _ => None,
             }
@@ -245,9 +260,17 @@ where
 
 /// Independent computation: leftmost-first match anchored at offset 0 of the haystack.
 fn regex_direct(n: usize, hay: &[u8]) -> Option<(usize, usize)> {
+    regex_direct_at(n, hay, 0)
+}
+
+/// Leftmost-first match anchored at offset `off` of the haystack, with the whole haystack as context.
+fn regex_direct_at(n: usize, hay: &[u8], off: usize) -> Option<(usize, usize)> {
     use regex_automata::{meta, Anchored, Input};
+    if off > hay.len() {
+        return None;
+    }
     let re = meta::Regex::new(PATTERNS[n]).expect("pattern table entry must compile");
-    re.find(Input::new(hay).anchored(Anchored::Yes))
+    re.find(Input::new(hay).range(off..).anchored(Anchored::Yes))
         .map(|m| (m.start(), m.end()))
 }
 
@@ -335,11 +358,22 @@ fn case_str(spec: &Spec, toks: &[u64]) -> Outcome {
         Spec::PaddedInt(r) => run_str(text::int::<I, E>(*r).padded(), input),
         Spec::PaddedIdent => run_str(text::ascii::ident::<I, E>().padded(), input),
         Spec::Regex(n) => run_str(regex::<I, E>(PATTERNS[*n]), input),
+        Spec::RegexAt(n, k) => run_str(
+            any::<I, E>().repeated().exactly(*k).ignore_then(regex::<I, E>(PATTERNS[*n])),
+            input,
+        ),
     };
     let conv = |off: usize| char_index(input, off);
     let mut line = format!("{} F{}", fmt_pre(pre, &conv), full as u8);
     if let Spec::Regex(n) = spec {
         line.push_str(&fmt_re(regex_direct(*n, input.as_bytes()), &conv));
+    }
+    if let Spec::RegexAt(n, k) = spec {
+        let r = match input.char_indices().map(|(i, _)| i).chain([input.len()]).nth(*k) {
+            Some(off) => regex_direct_at(*n, input.as_bytes(), off),
+            None => None,
+        };
+        line.push_str(&fmt_re(r, &conv));
     }
     Outcome::Line(line)
 }
@@ -376,11 +410,19 @@ fn case_bytes(spec: &Spec, toks: &[u64]) -> Outcome {
         Spec::PaddedInt(r) => run_bytes(text::int::<I, E>(*r).padded(), input),
         Spec::PaddedIdent => run_bytes(text::ascii::ident::<I, E>().padded(), input),
         Spec::Regex(n) => run_bytes(regex::<I, E>(PATTERNS[*n]), input),
+        Spec::RegexAt(n, k) => run_bytes(
+            any::<I, E>().repeated().exactly(*k).ignore_then(regex::<I, E>(PATTERNS[*n])),
+            input,
+        ),
     };
     let conv = |off: usize| Some(off);
     let mut line = format!("{} F{}", fmt_pre(pre, &conv), full as u8);
     if let Spec::Regex(n) = spec {
         line.push_str(&fmt_re(regex_direct(*n, input), &conv));
+    }
+    if let Spec::RegexAt(n, k) = spec {
+        let r = if *k <= input.len() { regex_direct_at(*n, input, *k) } else { None };
+        line.push_str(&fmt_re(r, &conv));
     }
     Outcome::Line(line)
 }
